@@ -341,5 +341,18 @@ having that image. -/
 def pruneTol (img : Cand K → Cand K) (cs : List (Cand K)) : List (Cand K) :=
   (prune (cs.map img)).filterMap (fun f => cs.find? (fun c => decide (img c = f)))
 
+/-- `_apply_edp_columns` on a row whose first two Pareto columns are energy and latency: when EDP is
+requested a column `energy * latency` is appended, and the energy (latency) column is deleted unless
+ENERGY (LATENCY) is requested as well. Other columns are untouched. -/
+def applyEdp (wantEdp wantE wantL : Bool) : Vec → Vec
+  | e :: l :: rest =>
+    if wantEdp then
+      (if wantE then [e] else []) ++ (if wantL then [l] else []) ++ rest ++ [e * l]
+    else e :: l :: rest
+  | v => v
+
+/-- Rename the compatibility class of a candidate. -/
+def mapKey {K' : Type} (ρ : K → K') (c : Cand K) : Cand K' := ⟨ρ c.key, c.obj, c.res⟩
+
 end
 end AFV.Search
